@@ -1598,3 +1598,41 @@ def redis_lifecycle(ctx: Ctx, rule: str) -> None:
     ok = not (set(nacks + full) & flow.reach_under(gc, got_env(False), flow.NORMAL_KINDS)) and bool(set(full) & flow.reach_under(gc, got_env(True), flow.NORMAL_KINDS))
     ctx.check(ok, rule, co, "redis consume_or_none: nothing fetched -> next priority, no message touched", "no nack / return of a message when msg is None",
               "redis consume_or_none unpacks / dead-letters / returns a message it did not get (the poll task dies on the first empty priority) or never returns the one it got", instance="redis consume_or_none: empty priority")
+
+
+def inmem_reject_table(ctx: Ctx, rule: str) -> None:
+    """In-memory reject, by the category of the consumer that holds the message: DEAD -> front of the dead list; DELAYED with a due time -> its delayed bucket; otherwise -> the
+    waiting queue. The due time is looked up exactly for DELAYED holders."""
+    f = ctx.func(f"{C.INMEM_BROKER}.reject")
+    g = ctx.cfg(f)
+    ev = {"dead": [n.id for n in g.calls() if ".dead." in (n.callee or "") and (n.callee or "").endswith("insert")],
+          "delayed": [n.id for n in g.calls() if isinstance(n.ast.func, ast.Attribute) and n.ast.func.attr in ("insert", "append") and ".delayed" in unparse(n.ast.func.value)],
+          "waiting": [n.id for n in g.calls() if (n.callee or "").endswith("simple.put_nowait")]}
+    if not ctx.check(all(ev.values()), rule, f, "in-memory reject has a way back to each place", "dead / delayed / waiting insertions", f"in-memory reject lacks an insertion into { [k for k, v in ev.items() if not v] }: "
+                     "a message taken from that category cannot be returned to it", instance="in-memory reject: places"):
+        return
+    due_names = {s_.target for s_ in g.nodes if s_.kind == "store" and "wait_until" in unparse(s_.meta.get("value") or ast.Constant(None))}
+    v = None
+    for nm in due_names:
+        v = C.stored_value(f, nm)
+    t = C.negate_aware_ifexp(v) if v is not None else None
+    ok = t is not None and isinstance(t[0], ast.Compare) and isinstance(t[0].ops[0], ast.Eq) and {unparse(t[0].left), unparse(t[0].comparators[0])} >= {"MessageCategory.DELAYED"} \
+        and "wait_until" in unparse(t[1]) and C.is_const(t[2], None)
+    ctx.check(ok, rule, f, "in-memory reject: the due time is looked up for DELAYED holders only", "wait_until(...) if category == DELAYED else None",
+              f"in-memory reject computes the due time as `{unparse(v) if v is not None else '?'}`: a message rejected by a NORMAL consumer is parked in the delayed map, one rejected by a DELAYED reader lands in the waiting "
+              "queue and is delivered before its time", instance="in-memory reject: due time by category")
+
+    def env(dead, has_due):
+        def pred(node):
+            if isinstance(node, ast.Compare) and len(node.ops) == 1 and isinstance(node.ops[0], (ast.Eq, ast.NotEq)) and "MessageCategory.DEAD" in (unparse(node.left), unparse(node.comparators[0])):
+                return dead if isinstance(node.ops[0], ast.Eq) else not dead
+            if isinstance(node, ast.Compare) and len(node.ops) == 1 and isinstance(node.left, ast.Name) and node.left.id in due_names and C.is_const(node.comparators[0], None):
+                return (not has_due) if isinstance(node.ops[0], ast.Is) else has_due
+            return None
+        return _branch_env(pred)
+
+    for name, e, want in (("DEAD holder", env(True, False), {"dead"}), ("due time ahead", env(False, True), {"delayed"}), ("no due time", env(False, False), {"waiting"})):
+        r = flow.reach_under(g, e, flow.NORMAL_KINDS)
+        got = {k for k, ids in ev.items() if set(ids) & r}
+        ctx.check(got == want, rule, f, f"in-memory reject [{name}] -> {sorted(want)}", "exactly this place", f"in-memory reject, case '{name}': the message goes to {sorted(got) or 'no place'} instead of {sorted(want)}",
+                  instance=f"in-memory reject[{name}]")
